@@ -1,7 +1,7 @@
 (* Model/MwRt.v -- run-time support for the Gallina functions that tools/genmw generates from middleware.go
    (coq/Gen/MwSrc.v): the state a handler mutates, and the multi-valued Go primitives as total functions. *)
 Require Import Base.Bytes Gen.Tables Model.Util Model.Headers Model.Methods Model.Origins Model.Pattern Model.Radix
-  Model.Config Model.Serve.
+  Model.Config Model.CfgRt Model.Serve.
 
 (* what the translated code mutates: the response header map (w.Header() / resHdrs), the local buffer map of
    handleCORSPreflight (buf), the status passed to w.WriteHeader, and whether the wrapped handler was invoked *)
@@ -37,9 +37,5 @@ Definition parse2 (s : bytes) : origin * bool :=
   | Some o => (o, true)
   | None => (zero_origin, false)
   end.
-
-(* a configuration-owned slice that is nil or a singleton *)
-Definition opt_list {A} (o : option A) : list A := match o with Some v => [v] | None => [] end.
-Definition is_some {A} (o : option A) : bool := match o with Some _ => true | None => false end.
 
 Definition init_gst (pre : hmap) : gst := {| g_res := pre; g_buf := []; g_status := None; g_deleg := false |}.
